@@ -218,3 +218,15 @@ Theorem C05_settled : forall W sem, wf W -> sem_nonblank_weak W sem -> stored_ok
        settled W (fst (evaluate_list W sem s l)) /\ Inv W sem (fst (evaluate_list W sem s l)).
 Proof. exact settled_weak. Qed.
 Print Assumptions C05_settled.
+
+(* evaluating the same address list a second time returns the same values and
+   leaves the machine state (cell map, every cache entry) unchanged *)
+Theorem C05_list_repeat : forall W sem, wf W -> sem_nonblank_weak W sem -> stored_ok W sem ->
+  forall s l, Inv W sem s -> settled W s -> ltN W l ->
+    snd (evaluate_list W sem (fst (evaluate_list W sem s l)) l) = snd (evaluate_list W sem s l)
+    /\ forall m, st_built (fst (evaluate_list W sem (fst (evaluate_list W sem s l)) l)) m
+                 = st_built (fst (evaluate_list W sem s l)) m
+              /\ st_cache (fst (evaluate_list W sem (fst (evaluate_list W sem s l)) l)) m
+                 = st_cache (fst (evaluate_list W sem s l)) m.
+Proof. exact list_repeat_weak. Qed.
+Print Assumptions C05_list_repeat.
